@@ -51,6 +51,26 @@ PROPS = {
             "a deciding quorum of the empty configuration is undefined (n/2+1 of 0 members cannot be met); the code's convention that an empty majority config wins every vote only concerns bootstrap and is excluded from the overlap theorems",
         ],
     },
+    "C14": {
+        "gens": {
+            "quick": [
+                {"name": "random 20000x40", "args": ["raftlog", "--seed", "{seed}", "--cases", "20000", "--len", "40"]},
+                {"name": "exhaustive tiny logs len 3", "args": ["raftlog", "--exhaustive", "--len", "3"], "exhaustive": True},
+            ],
+            "thorough": [
+                {"name": "random 300000x40", "args": ["raftlog", "--seed", "{seed}", "--cases", "300000", "--len", "40"]},
+                {"name": "exhaustive tiny logs len 4", "args": ["raftlog", "--exhaustive", "--len", "4"], "exhaustive": True},
+            ],
+        },
+        "rule": "operation histories on raft::RaftLog<MemStorage> (append incl. truncating / gapped / below-commit, maybe_append with the conflict placed at every position relative to first/offset/persisted/committed/last incl. the ones that must panic and non-contiguous batches, commit_to, maybe_commit, ready-style stabilise = storage append of the unstable entries + stable_entries, maybe_persist incl. stale notices, restore(snapshot), storage apply_snapshot + stable_snap + maybe_persist_snap, storage compact, applied_to, runtime change of max_apply_unpersisted_log_limit incl. u64::MAX, the restart window applied > committed, storage unavailability triggers) generated from one PRNG from random initial storages (snapshot point + entries with varied payload sizes around the varint boundary), plus an exhaustive enumeration of all sequences over a 16-symbol alphabet from 4 tiny initial logs; after every mutating operation a dump made of public queries (first_index, last_index, term(i) for every i from first-1 to last+1, all entries, has_next_entries, next_entries) and the public cursors (committed, persisted, applied, unstable offset/len/snapshot/entries_size, storage first/last) is compared with the Lean model, and between mutations pure queries with explicit arguments around every boundary (term, match_term, find_conflict, find_conflict_by_term, is_up_to_date, slice/entries/next_entries_since with size limits at exact prefix sums +-1, 0, NO_LIMIT and None, commit_info, last_term, snapshot); errors are canonicalised to `err compacted|unavailable|log_unavailable|…`, panics to `panic`; a case is one (observation before, command) pair, distinct = distinct pairs",
+        "trusted_base": LEAN_TB,
+        "assumptions": [
+            "the Storage is MemStorage (model of C19); a conforming Storage in the theorems means: contiguous entries above the snapshot point",
+            "entry payload bytes are irrelevant to every observable (only lengths are generated and compared)",
+            "theorems about invariant preservation assume each operation's documented contract (contiguous batches, stabilise = storage append + stable_entries, compaction <= min(applied, persisted+1)); outside the contract the model is still tied to the code by the correspondence, but no invariant is claimed",
+            "RaftLog::scan (crate-private) is modelled but not driven by the correspondence",
+        ],
+    },
     "C18": {
         "gens": {
             "quick": [
